@@ -10,6 +10,8 @@ import (
 	"os"
 	"strconv"
 	"strings"
+	"sync"
+	"sync/atomic"
 	"testing"
 	"time"
 
@@ -276,6 +278,7 @@ func TestC16_MemoryPerName(t *testing.T) {
 			g.readonly = true // the bystander is not authenticated: no write step
 		}, func(i int) []string { return []string{fmt.Sprintf("una%06d", i)} }},
 	}
+	httpNames := 30000
 	for _, ph := range phases {
 		c.Case()
 		ph.setup()
@@ -318,5 +321,198 @@ func TestC16_MemoryPerName(t *testing.T) {
 			return
 		}
 		c.NonTrivial(ph.name)
+	}
+	// phase 3: requirepass is set; HTTP requests GET /<new word> with a wrong Authorization header
+	{
+		c.Case()
+		name := "refused HTTP requests (wrong Authorization) for distinct command names"
+		before := settle()
+		var wg sync.WaitGroup
+		var answered int64
+		for w := 0; w < 8; w++ {
+			wg.Add(1)
+			go func(w int) {
+				defer wg.Done()
+				buf := make([]byte, 4096)
+				for i := w; i < httpNames; i += 8 {
+					cn, err := net.DialTimeout("tcp", g.p.Addr, 5*time.Second)
+					if err != nil {
+						return
+					}
+					cn.SetDeadline(time.Now().Add(20 * time.Second))
+					fmt.Fprintf(cn, "GET /hw%06d+x HTTP/1.1\r\nHost: x\r\nAuthorization: wrong\r\n\r\n", i)
+					if n, _ := cn.Read(buf); n > 0 && strings.HasPrefix(string(buf[:n]), "HTTP/1.1 ") {
+						atomic.AddInt64(&answered, 1)
+					}
+					cn.Close()
+				}
+			}(w)
+		}
+		wg.Wait()
+		after := settle()
+		grow := (after - before) >> 20
+		c.Note("%s: %d requests, %d answered, RSS %d MB -> %d MB", name, httpNames, answered, before>>20, after>>20)
+		c.Label("phase:" + name)
+		switch {
+		case !g.p.Alive():
+			vd := g.diagnose("bystander-disconnected: HTTP flood")
+			what := fmt.Sprintf("%s: the server did not survive %d requests: %s at %s", name, httpNames, vd.panicLine, vd.frame)
+			c.Violation(metricsLabelID, what, map[string]any{"phase": name})
+			t.Errorf("VIOLATION-CANDIDATE key=%s: %s", metricsLabelID, what)
+		case int(answered) < httpNames*99/100:
+			c.Inconclusive("%s: only %d of %d HTTP requests were answered (port exhaustion or load)", name, answered, httpNames)
+		case before >= 0 && after >= 0 && grow > boundMB:
+			what := fmt.Sprintf("%s: %d requests grew the resident set from %d MB to %d MB (+%d MB, bound %d MB): a metrics label per refused command name", name, httpNames, before>>20, after>>20, grow, boundMB)
+			if ev.KnownActive(metricsLabelID) {
+				c.Known(metricsLabelID, what)
+			} else {
+				c.Violation(metricsLabelID, what, map[string]any{"phase": name, "rss_before": before, "rss_after": after})
+				t.Errorf("VIOLATION-CANDIDATE key=%s: %s", metricsLabelID, what)
+			}
+		default:
+			c.NonTrivial(name)
+		}
+	}
+}
+
+// ---- a connection that stops reading ---------------------------------------------------
+
+const monitorStallID = "monitor-stall-freezes-server"
+
+// stalledKinds: ways to make the server owe a connection more output than its
+// socket takes, while that connection never reads.
+var stalledKinds = []struct {
+	name  string
+	quick bool
+	start []string // sent by the stalled connection (one reply line is read)
+}{
+	{"MONITOR", true, []string{"MONITOR"}},
+	{"SUBSCRIBE", true, []string{"SUBSCRIBE", "stall"}},
+	{"PSUBSCRIBE", false, []string{"PSUBSCRIBE", "st*"}},
+	{"NEARBY FENCE", false, []string{"NEARBY", "kstall", "FENCE", "POINT", "33", "-115", "100000"}},
+	{"AOF 0", false, []string{"AOF", "0"}},
+	{"pipelined GETs of a 60 KB value", true, nil},
+}
+
+func TestC16_StalledReader(t *testing.T) {
+	c := ev.New("C16", "stalled-reader", "exploration")
+	t.Cleanup(c.Flush)
+	t.Cleanup(func() { drainExcluded(c) })
+	c.Rule("subprocess server; connection M (SO_RCVBUF 4 KB) starts an output stream (MONITOR, SUBSCRIBE, PSUBSCRIBE, NEARBY ... FENCE, AOF 0, or 300 pipelined GETs of a 60 KB value), reads one line and NEVER reads again; connection W then sends 200 x SET kstall id<i> FIELD f <i> STRING <60000 bytes> (+ PUBLISH for the pub/sub kinds), each awaited; a third connection does GET; a healthy second MONITOR that does read must keep receiving lines. Oracle (C16: input on one connection never affects other connections): every one of W's commands is answered within the hang budget, the third connection's GET is answered, the healthy monitor saw W's commands, bystander PING/write/canary/metrics fine, process alive. Quick: MONITOR, SUBSCRIBE, pipelined GETs; thorough: all six. Non-trivial: every kind.")
+	g := newGuard(t, c)
+	defer g.stop()
+	value := strings.Repeat("v", 60000)
+	for _, k := range stalledKinds {
+		if !k.quick && !ev.Thorough() {
+			continue
+		}
+		c.Case()
+		problem := func() string {
+			m, err := net.DialTimeout("tcp", g.p.Addr, 5*time.Second)
+			if err != nil {
+				return "harness: " + err.Error()
+			}
+			defer m.Close()
+			m.(*net.TCPConn).SetReadBuffer(4096)
+			if k.start != nil {
+				m.Write(encRESP(k.start))
+				m.SetReadDeadline(time.Now().Add(10 * time.Second))
+				one := make([]byte, 64)
+				if n, _ := m.Read(one); n == 0 {
+					return k.name + " was not acknowledged"
+				}
+			}
+			healthy, err := t38.Dial(g.p.Addr)
+			if err != nil {
+				return "harness: " + err.Error()
+			}
+			defer healthy.Close()
+			if v, err := healthy.Do("MONITOR"); err != nil || v.IsErr() {
+				return fmt.Sprintf("second MONITOR refused: %v %v", v, err)
+			}
+			var seen int64
+			go func() {
+				buf := make([]byte, 1<<16)
+				for {
+					healthy.C.SetReadDeadline(time.Now().Add(60 * time.Second))
+					n, err := healthy.C.Read(buf)
+					atomic.AddInt64(&seen, int64(bytes.Count(buf[:n], []byte(" \"SET\" "))+bytes.Count(buf[:n], []byte("\"set\""))+n/60000))
+					if err != nil {
+						return
+					}
+				}
+			}()
+			w, err := t38.Dial(g.p.Addr)
+			if err != nil {
+				return "harness: " + err.Error()
+			}
+			defer w.Close()
+			if k.start == nil {
+				if v, err := w.Do("SET", "kstall", "big", "STRING", value); err != nil || v.IsErr() {
+					return fmt.Sprintf("SET big: %v %v", v, err)
+				}
+				var b []byte
+				for i := 0; i < 300; i++ {
+					b = append(b, encRESP([]string{"GET", "kstall", "big"})...)
+				}
+				m.SetWriteDeadline(time.Now().Add(5 * time.Second))
+				m.Write(b) // 18 MB of replies owed, none read
+			}
+			for i := 0; i < 200; i++ {
+				w.Send("SET", "kstall", "id"+strconv.Itoa(i), "FIELD", "f", strconv.Itoa(i), "STRING", value)
+				if v, err := w.RecvTimeout(hangBudget); err != nil || v.IsErr() {
+					return fmt.Sprintf("SET no. %d of 200 on the writer connection: %v %v", i+1, v, err)
+				}
+				if strings.Contains(k.name, "SUBSCRIBE") {
+					w.Send("PUBLISH", "stall", value)
+					if _, err := w.RecvTimeout(hangBudget); err != nil {
+						return fmt.Sprintf("PUBLISH no. %d of 200 on the writer connection: %v", i+1, err)
+					}
+				}
+			}
+			third, err := t38.Dial(g.p.Addr)
+			if err != nil {
+				return "harness: " + err.Error()
+			}
+			defer third.Close()
+			if v, err := third.Do("GET", "kstall", "id199"); err != nil || v.IsErr() || len(v.Str) != 60000 {
+				return fmt.Sprintf("GET on a third connection: %v", err)
+			}
+			for i := 0; i < 100 && atomic.LoadInt64(&seen) < 150; i++ {
+				time.Sleep(20 * time.Millisecond)
+			}
+			if n := atomic.LoadInt64(&seen); n < 150 {
+				return fmt.Sprintf("the healthy second MONITOR saw only about %d of the 200 SETs", n)
+			}
+			return ""
+		}()
+		if strings.HasPrefix(problem, "harness:") {
+			t.Fatalf("%s", problem)
+		}
+		vd := g.check()
+		c.Label("kind:" + k.name)
+		if problem == "" && vd.crashID == "" && vd.bystander == "" && !vd.restart {
+			c.NonTrivial(k.name)
+			continue
+		}
+		detail := problem
+		if vd.crashID != "" {
+			detail += fmt.Sprintf("; process: %s at %s", vd.panicLine, vd.frame)
+		}
+		if vd.bystander != "" {
+			detail += "; " + vd.bystander
+		}
+		what := fmt.Sprintf("a connection that started %s and never reads again: %s", k.name, detail)
+		id := monitorStallID
+		if k.name != "MONITOR" {
+			id = "stalled-reader-affects-others:" + strings.ToLower(strings.Fields(k.name)[0])
+		}
+		if ev.KnownActive(id) {
+			c.Known(id, what)
+		} else {
+			c.Violation(id, what, map[string]any{"kind": k.name})
+			t.Errorf("VIOLATION-CANDIDATE key=%s: %s", id, what)
+		}
+		g.restart()
 	}
 }
